@@ -338,10 +338,23 @@ def _keyword_last(tree, repo=None):
     safe_names = top - rebound
 
     class T(ast.NodeTransformer):
+        def __init__(self):
+            self.classes = []
+
+        def visit_ClassDef(self, node):
+            self.classes.append({m.name for m in node.body if isinstance(m, (ast.FunctionDef, ast.AsyncFunctionDef))})
+            self.generic_visit(node)
+            self.classes.pop()
+            return node
+
         def visit_Call(self, node):
             self.generic_visit(node)
             f = node.func
             if isinstance(f, ast.Name) and f.id not in safe_names:
+                return node
+            # a method called on self / cls must be defined by the enclosing class itself (an inherited method of a
+            # third-party base class may name its parameters differently)
+            if isinstance(f, ast.Attribute) and not (self.classes and f.attr in self.classes[-1]):
                 return node
             # only callees that certainly are repository definitions: plain names that are not builtins, and methods
             # called on self / cls
